@@ -646,6 +646,23 @@ struct side {
 static struct side A = { .name = "client", .idx = 0 }, B = { .name = "server", .idx = 1 };
 static struct xcm_socket *g_server;
 static int g_server_errno;
+static int g_void;            /* a utls connection went over UX (foreign process in the same abstract name space) */
+
+/* C09 is about TLS connections.  The UX half of utls lives in the abstract AF_UNIX name space of the
+   network namespace; should a foreign process own the same name, a utls socket may end up talking UX to
+   it.  Such a cell says nothing about TLS: it is voided (counted, reported, never judged). */
+static void check_transport(struct side *x)
+{
+    char tp[32] = "";
+    if (!g_utls || !x->s)
+        return;
+    int rc = xcm_attr_get_str(x->s, "xcm.transport", tp, sizeof tp);
+    mc_trace("%s: xcm.transport = %s", x->name, rc > 0 ? tp : "?");
+    if (rc > 0 && !strcmp(tp, "ux")) {
+        g_void = 1;
+        mc_observe("%s: this utls connection runs over UX, not TLS - cell void", x->name);
+    }
+}
 static char g_caddr[200], g_saddr[200];
 static int g_port;
 static int64_t g_t0;
@@ -935,6 +952,7 @@ static void task_a(void *arg)
         return;
     }
     x->created = 1;
+    check_transport(x);
     run_side(x);
 }
 
@@ -960,6 +978,7 @@ static void task_b(void *arg)
     mc_observe("server xcm_accept_a -> %s", x->s ? "socket" : errname(x->create_errno));
     if (x->s) {
         x->created = 1;
+        check_transport(x);
         run_side(x);
     }
     /* nothing else will be accepted: a connection still queued is reset */
@@ -1165,9 +1184,15 @@ static void scenario(const char *params)
     }
     int env_quiet = env_now_ns() - g_t0 < 1000000000LL;
     mc_observe("end=%d", end);
-    judge(&B, &A, &eb, &ea, env_quiet);
-    if (g_server_errno == 0 && !g_raw_client)
-        judge(&A, &B, &ea, &eb, env_quiet);
+    if (g_void) {
+        mc_count(8, 1);
+        mc_info("void/utls-over-ux", "a utls connection of this cell went over UX (name collision with a foreign process): not a TLS "
+                "connection, not judged. Cell: %.120s", g_desc);
+    } else {
+        judge(&B, &A, &eb, &ea, env_quiet);
+        if (g_server_errno == 0 && !g_raw_client)
+            judge(&A, &B, &ea, &eb, env_quiet);
+    }
     if (end != MC_END_DONE && A.created && B.created && env_quiet) {
         char k[96];
         snprintf(k, sizeof k, "hang/end=%d/tp=%s", end, g_tp);
